@@ -107,6 +107,7 @@ fn main() {
         "fdexec" => fd::fdexec(rest),
         "fdrand" => fd::fdrand(rest),
         "fdtrace" => fd::fdtrace(rest),
+        "fddiff" => fd::fddiff(rest),
         "mfitems" => fd::mfitems(rest),
         "mfexec" => fd::mfexec(rest),
         "truncsweep" => fd::truncsweep(rest),
